@@ -27,7 +27,9 @@ LEVEL_TEXT = ("Theorems (Coq, abstract number type with only the laws of a total
               "Nelder-Mead, further (abstract number type): every call of every overload terminates - it returns or stops at NMAX; the model's fuel is never exhausted, for every objective, NaN values included "
               "(C11_minimize_terminates, from C11_nm_iter_nfunc: the loop continues only while nfunc < NMAX and every pass adds 1..2+ndim to nfunc); on ndim+1 vertices (always so for the two convenience overloads) the objective "
               "has been evaluated exactly mpts + nfunc times when the call returns and 0 <= nfunc <= NMAX+1+ndim (C11_minimize_nfunc_counts_evaluations, C11_minimize_deltas_nfunc_counts_evaluations); a returned simplex has a highest reported "
-              "vertex value whose fractional range 2|y_hi - fmin|/(|y_hi| + |fmin| + 1e-10), as the code computes it, is below ftol (C11_minimize_returns_within_ftol). "
+              "vertex value whose fractional range 2|y_hi - fmin|/(|y_hi| + |fmin| + 1e-10), as the code computes it, is below ftol (C11_minimize_returns_within_ftol); over the reals, in absolute terms: "
+              "2(y_hi - fmin) < ftol(|y_hi| + |fmin| + 1e-10), and when the reported values have both signs (fmin <= 0 <= y_hi, objectives with a negative minimum value) and ftol <= 1 then y_hi - fmin < 1e-10 - extreme values of "
+              "opposite sign and equal magnitude never end a run (C11_minimize_returns_within_ftol_signed). "
               "One-dimensional convergence, over the reals (the real-number instance of the same model, no rounding): for EVERY strictly unimodal objective (falls strictly up to xs, rises strictly after), every two distinct starting abscissae and "
               "every tolerance >= 0, Bracket ends with bx strictly between ax and cx and the minimiser between ax and cx (C11_bracket_encloses_minimiser); every pass of Brent keeps the current point and the minimiser inside [a,b] - the parabolic, golden-section "
               "and minimal-step trial points all lie in [a,b] and differ from x (C11_brent_step_keeps_minimiser); hence whenever Find_Minimum returns, |x_min - xs| <= 2*(tol*|x_min| + 2^-52) (C11_find_minimum_converges_unimodal), "
@@ -37,7 +39,8 @@ LEVEL_TEXT = ("Theorems (Coq, abstract number type with only the laws of a total
               "These clauses are decided on the implementation (S4) on the quantifier's classes: quadratic bowls with condition number up to 1e4 in 1..6 dimensions, quartic-flat, "
               "cosh-like, Morse and Lennard-Jones-like 1-D wells, random starts, scales 1e-3..1e3, tolerances 1e-3..1e-12, with the a-priori distance bounds written next to the predicates; "
               "descent and consistency are also replayed exactly (bit for bit, the objective re-evaluated in Python) on multimodal sin/cos mixtures. "
-              "Also driven: 1-D bowls whose values overflow to +inf at visited points (far starts, steep bowls, repulsive walls); runs of 2..60 calls on shared objects "
+              "Also driven: quadratic bowls whose values change sign inside the simplex (negative minimum value; the extreme vertex values of opposite sign and equal magnitude exactly and at relative distances 1e-16..1e-1, "
+              "one extreme value zero, the zero level anywhere in or near the simplex, at the start or at the 1st..34th iteration, as single calls of all three overloads and as calls within runs on shared objects; S4 evaluates the fractional range of the reported values itself); 1-D bowls whose values overflow to +inf at visited points (far starts, steep bowls, repulsive walls); runs of 2..60 calls on shared objects "
               "(every answer compared with a fresh object's, evaluation counts passing NMAX); runs in which the arguments are the objects' own or another object's public members, passed by reference "
               "(aliasing: the restart from the reported simplex / reported point, y or the starting vector as displacements) or copied, judged on the values the members held when the call started; runs in which the caller overwrites y (stale, 'better than possible', infinite values, other lengths), current_simplex (the very simplex of the next request) "
               "and nfunc/mpts/ndim/fmin (counters at NMAX, sizes of another problem) between calls, runs in which a call is abandoned by a throwing objective (at every vertex of the initial loop and 1..60 evaluations into the iteration) "
@@ -207,7 +210,109 @@ def quad_nd(rng, n):
         lin = add([f"* {C(uj)} - v {j} {C(cj)}" for j, (uj, cj) in enumerate(zip(u, c)) if uj != 0.0] or [C(0.0)])
         terms.append(f"* {C(l)} {sq(lin)}")
     e = f"+ {add(terms)} {C(d)}"
-    return e, {"c": c, "d": d, "mu": 2 * min(lam) * 0.98, "lmax": 2 * max(lam) * 1.02, "scale": s, "kappa": kappa}
+    return e, {"c": c, "d": d, "mu": 2 * min(lam) * 0.98, "lmax": 2 * max(lam) * 1.02, "scale": s, "kappa": kappa, "q": add(terms)}
+
+
+def _nm_sim(f, pp, kmax):
+    """a plain Nelder-Mead (reflect -1, expand 2, contract 0.5, shrink towards the best vertex) WITHOUT any termination test, used by the generator only
+    to learn which vertex values a run sees at the top of its k-th iteration; returns (simplex, values, ihi, ilo) there"""
+    p = [list(r) for r in pp]; m = len(p); n = len(p[0]); y = [f(r) for r in p]
+    psum = [sum(p[i][j] for i in range(m)) for j in range(n)]
+
+    def amotry(ihi, fac):
+        fac1 = (1.0 - fac) / n; fac2 = fac1 - fac
+        pt = [psum[j] * fac1 - p[ihi][j] * fac2 for j in range(n)]
+        yt = f(pt)
+        if yt < y[ihi]:
+            y[ihi] = yt
+            for j in range(n): psum[j] += pt[j] - p[ihi][j]; p[ihi][j] = pt[j]
+        return yt
+    for it in range(kmax + 1):
+        ilo = 0
+        ihi, inhi = (0, 1) if y[0] > y[1] else (1, 0)
+        for i in range(m):
+            if y[i] <= y[ilo]: ilo = i
+            if y[i] > y[ihi]: inhi = ihi; ihi = i
+            elif y[i] > y[inhi] and i != ihi: inhi = i
+        if it == kmax or y[ihi] == y[ilo] or not all(math.isfinite(t) for t in y): break
+        yt = amotry(ihi, -1.0)
+        if yt <= y[ilo]: amotry(ihi, 2.0)
+        elif yt >= y[inhi]:
+            ys = y[ihi]
+            if amotry(ihi, 0.5) >= ys:
+                for i in range(m):
+                    if i != ilo:
+                        p[i] = [0.5 * (p[i][j] + p[ilo][j]) for j in range(n)]; y[i] = f(p[i])
+                psum = [sum(p[i][j] for i in range(m)) for j in range(n)]
+    return p, y, ihi, ilo
+
+
+EPS_LADDER = [0.0, 1e-16, 1e-15, 1e-14, 1e-13, 1e-12, 1e-11, 1e-10, 1e-9, 1e-8, 1e-7, 1e-6, 1e-5, 1e-4, 3e-4, 1e-3, 3e-3, 1e-2, 1e-1]
+
+
+def signed_bowl_case(rng, tols):
+    op, args, e, info, tags = signed_bowl_request(rng)
+    ftol = rng.choice(tols)
+    return Case(f"{op} {hx(ftol)} {args} {e}", (op,) + tags, info=dict(info, ftol=ftol))
+
+
+def signed_bowl_request(rng):
+    """strictly convex quadratic bowls whose VALUES change sign: the minimum value is negative and the zero level set runs through (or near) the simplex
+    at the top of the run's k-th iteration, k on a ladder from the start to tens of iterations in.  The termination test is a FRACTIONAL range
+    2|y_hi - y_lo| / (|y_hi| + |y_lo| + TINY); its numerator and denominator behave differently from the all-positive case exactly here.
+      symmetric : y_hi = -y_lo(1 + eps) at iteration k, eps = 0 (exactly, where an offset with that property exists in doubles) and on a geometric
+                  ladder 1e-16 .. 1e-1 of both signs (the extreme values have equal magnitudes to eps: fractional range 2, difference of magnitudes eps)
+      one-zero  : y_lo = 0 or y_hi = 0 (to eps) at iteration k
+      straddle  : the zero level anywhere between the extreme values (or just outside them)
+      deep      : the minimum value is negative and 1e-3 .. 1e3 times the initial spread below the start values (all values negative from some iteration on)
+    'dyadic' variants use power-of-two curvatures, axis directions and dyadic coordinates, so that the values and the symmetric offset are exact."""
+    n = rng.choice([1, 2, 2, 3, 3, 4, 5, 6])
+    dyadic = rng.random() < 0.3
+    if dyadic:
+        s = 2.0 ** rng.randint(-9, 9); lam = [2.0 ** rng.randint(-3, 3) / (s * s) for _ in range(n)]
+        c = [rng.choice([0.0, s * rng.randint(-12, 12) / 4]) for _ in range(n)]
+        terms = [f"* {C(l)} {sq(f'- v {j} {C(cj)}')}" for j, (l, cj) in enumerate(zip(lam, c))]
+        info = {"c": c, "mu": 2 * min(lam) * 0.98, "lmax": 2 * max(lam) * 1.02, "scale": s, "kappa": max(lam) / min(lam), "q": add(terms)}
+        start = [cj + s * rng.randint(-40, 40) / 8 for cj in c]
+        delta = s * 2.0 ** rng.randint(-4, 4) * rng.choice([-1, 1])
+        dmul = lambda: 2.0 ** rng.randint(-2, 2) * rng.choice([-1, 1]); jit = lambda: rng.randint(-8, 8) / 8
+    else:
+        _e, info = quad_nd(rng, n); s = info["scale"]
+        start = [cj + s * 10 ** rng.uniform(-1, 1.5) * rng.gauss(0, 1) for cj in info["c"]]
+        delta = s * 10 ** rng.uniform(-2, 2) * rng.choice([-1, 1])
+        dmul = lambda: 10 ** rng.uniform(-1, 1) * rng.choice([-1, 1]); jit = lambda: rng.gauss(0, 1)
+    op = rng.choice(["nm1", "nmd", "nm"])
+    if op == "nm1":
+        ds = [delta] * n; pp = [list(start)] + [[x + ds[i] if j == i else x for j, x in enumerate(start)] for i in range(n)]; args = f"{flist(start)} {hx(delta)}"
+    elif op == "nmd":
+        ds = [delta * dmul() for _ in range(n)]; pp = [list(start)] + [[x + ds[i] if j == i else x for j, x in enumerate(start)] for i in range(n)]; args = f"{flist(start)} {flist(ds)}"
+    else:
+        pp = [[x + abs(delta) * jit() for x in start] for _ in range(n + 1)]; args = table(pp)
+    q = parse(info["q"].split())[0]
+    k = rng.choice([0, 0, 0, 0, 1, 1, 2, 3, 5, 8, 13, 21, 34])
+    p, y, ihi, ilo = _nm_sim(q, pp, k)
+    qhi, qlo = y[ihi], y[ilo]; h = 0.5 * (qhi - qlo); mid = 0.5 * (qhi + qlo)
+    mode = rng.choice(["symmetric", "symmetric", "symmetric", "one-zero", "straddle", "deep"])
+    eps = rng.choice(EPS_LADDER) * rng.choice([-1, 1])
+    if mode == "symmetric":
+        d = -mid + 0.5 * eps * h
+        if eps == 0.0:
+            # an offset with fl(q_hi + d) == -fl(q_lo + d), when one exists within a few ulp
+            cand = [d]
+            for _ in range(4): cand = cand + [math.nextafter(cand[-1], math.inf)]
+            for _ in range(4): cand = [math.nextafter(cand[0], -math.inf)] + cand
+            for dd in sorted(cand, key=lambda t: abs(t - d)):
+                fd = parse(f"+ {info['q']} {C(dd)}".split())[0]
+                if fd(p[ihi]) == -fd(p[ilo]): d = dd; break
+    elif mode == "one-zero":
+        d = -(qlo if rng.random() < 0.5 else qhi) * (1 + eps)
+    elif mode == "straddle":
+        d = -(qlo + rng.uniform(-0.5, 1.5) * (qhi - qlo))
+    else:
+        d = -(y[0] + 10 ** rng.uniform(-3, 3) * max(2 * h, abs(y[0]) * 1e-3))
+    if not math.isfinite(d): d = -1.0
+    info = dict(info, d=d, n=n)
+    return op, args, f"+ {info['q']} {C(d)}", info, ("bowl-signed-values", f"dim{n}", mode, "iteration0" if k == 0 else "later-iteration") + (("dyadic",) if dyadic else ())
 
 
 def multimodal_nd(rng, n):
@@ -246,7 +351,7 @@ def seq_case(rng, long_run):
         nobj = rng.choice([1, 1, 2, 3]); ftols = [rng.choice(tols) for _ in range(nobj)]
         ncalls = rng.randint(2, 6); dims = [rng.choice([1, 2, 3, 4, 6]) for _ in range(ncalls)]
         if rng.random() < 0.3: dims.sort(reverse=True)                     # larger, then smaller requests
-    calls = []; infos = []; prev = None
+    calls = []; infos = []; prev = None; signed = False
     for k in range(ncalls):
         r = rng.random()
         if prev is not None and r < 0.2:                                   # the identical request again, on the same or on another object
@@ -260,13 +365,16 @@ def seq_case(rng, long_run):
             xr = cc * rng.uniform(0.75, 2.5) if kind == "lj" else xl + rng.choice([-1, 1]) * sc * 10 ** rng.uniform(-3, 0.5)
             if xl == xr: xr = xl + sc
             calls.append(f"-1 fmin {hx(xl)} {hx(xr)} {hx(rng.choice(tols))} {e}"); infos.append(info); continue
-        n = dims[k]; e, info = quad_nd(rng, n)
         ob = rng.randrange(nobj)
-        txt = _nm_request(rng, n, e, info)
-        info = dict(info, n=n)
+        if rng.random() < 0.2:                                             # a bowl whose values change sign inside the simplex (see signed_bowl_request)
+            op, args, e, info, _tags = signed_bowl_request(rng); txt = f"{op} {args} {e}"; signed = True
+        else:
+            n = dims[k]; e, info = quad_nd(rng, n)
+            txt = _nm_request(rng, n, e, info)
+            info = dict(info, n=n)
         calls.append(f"{ob} {txt}"); infos.append(dict(info, ftol=ftols[ob])); prev = (txt, info, ob)
     line = f"seq {nobj} {' '.join(hx(t) for t in ftols)} {len(calls)} " + " ".join(calls)
-    return Case(line, ("seq", "long-history" if long_run else "short-history", f"objects{nobj}"), info={"calls": infos})
+    return Case(line, ("seq", "long-history" if long_run else "short-history", f"objects{nobj}") + (("signed-values-call",) if signed else ()), info={"calls": infos})
 
 
 def _vsrc_txt(v):
@@ -575,6 +683,9 @@ def generate(rng, tier):
         else:
             pp = [[x + abs(delta) * rng.gauss(0, 1) for x in start] for _ in range(n + 1)]
             cs.append(Case(f"nm {hx(ftol)} {table(pp)} {e}", ("nm", "bowl", f"dim{n}"), info=info))
+    # ---- Nelder-Mead on bowls whose values change sign inside the simplex (negative minimum value; extreme vertex values of equal magnitude and
+    #      opposite sign, exactly and on a ladder of relative distances, at the start or at a later iteration)
+    for _ in range(2500 if big else 260): cs.append(signed_bowl_case(rng, tols))
     # ---- Nelder-Mead on multimodal objectives: descent and consistency only
     for _ in range(2000 if big else 300):
         n = rng.choice([1, 2, 3, 4, 6])
@@ -964,7 +1075,9 @@ def _nm_converged(op, info, pmin, fmin, y, nfunc, extra_rel=0.0):
     dist = math.sqrt(sum((a - b) ** 2 for a, b in zip(pmin, info["c"])))
     bound = math.sqrt(2 * (K * ftol_abs + resol) / mu) + 8 * EPS * max(abs(t) for t in info["c"] + pmin)
     if not (dist <= bound):
-        how = "immediate-return" if nfunc == 0 else "stalled"
+        # (the two known ways of ending far from the minimiser are returns whose vertex values DO agree to the fractional tolerance; a return
+        #  whose reported values do not is something else and keeps its own signature)
+        how = "returned-above-ftol" if out else "immediate-return" if nfunc == 0 else "stalled"
         out.append((f"{op}:converged:{how}", f"quadratic bowl dim {n} condition {info['kappa']:.3g} ftol {ftol:g}: returned point at distance {dist:.3g} from the minimiser, "
                     f"implied bound {bound:.3g} (value excess {excess:.3g}, ftol_abs {ftol_abs:.3g})"))
     return out
